@@ -16,6 +16,9 @@ pub enum CompactMode {
     Never,
     Mid,
     End,
+    /// compacted mid-history and again right before the late delete/re-create section, so the
+    /// store holds two frozen segments and later deletions hit relationships of the older one
+    Multi,
 }
 
 #[derive(Clone, Copy, Debug, PartialEq, Eq, Serialize, Deserialize)]
@@ -35,7 +38,7 @@ impl Config {
 pub fn all_configs() -> Vec<Config> {
     let mut out = Vec::new();
     for index in [IndexMode::None, IndexMode::Before, IndexMode::After] {
-        for compact in [CompactMode::Never, CompactMode::Mid, CompactMode::End] {
+        for compact in [CompactMode::Never, CompactMode::Mid, CompactMode::End, CompactMode::Multi] {
             for native in [false, true] {
                 for parallel_cost in [0u64, 1_000_000_000] {
                     out.push(Config { index, compact, native, parallel_cost });
@@ -59,6 +62,8 @@ pub enum Op {
     GhostRel { src: usize, dst: usize },
     /// set the final value of p on node i (after a decoy)
     Fix { i: usize },
+    /// late in the history: delete the j-th reference relationship and create it again
+    Churn { j: usize },
 }
 
 #[derive(Clone, Debug, Serialize, Deserialize)]
@@ -95,6 +100,11 @@ pub fn build(tape: &[u16]) -> (Case, Vec<&'static str>) {
         }
         ops.push(Op::Rel { j });
     }
+    for j in 0..g.rels.len() {
+        if t.chance(1, 3) {
+            ops.push(Op::Churn { j });
+        }
+    }
     for i in 0..g.nodes.len() {
         ops.push(Op::Fix { i });
     }
@@ -113,7 +123,20 @@ fn props_of(n: &RNode) -> PropertyMap {
 }
 
 /// Build the store for a configuration from the same operation list (so ids coincide).
+/// engine id -> index of the reference node / relationship it stands for in this configuration
+/// (which id a re-created relationship receives may depend on the storage tier: a deletion in a
+/// frozen segment does not free the id)
+#[derive(Default)]
+pub struct IdNames {
+    pub nodes: BTreeMap<u64, usize>,
+    pub rels: BTreeMap<u64, usize>,
+}
+
 pub fn build_config_store(case: &Case, cfg: &Config) -> Result<GraphStore, String> {
+    build_config_store_named(case, cfg).map(|x| x.0)
+}
+
+pub fn build_config_store_named(case: &Case, cfg: &Config) -> Result<(GraphStore, IdNames), String> {
     let mut store = GraphStore::new();
     let index_all = |store: &mut GraphStore| {
         for l in gen::LABELS {
@@ -127,9 +150,16 @@ pub fn build_config_store(case: &Case, cfg: &Config) -> Result<GraphStore, Strin
         index_all(&mut store);
     }
     let mut node_ids = vec![None; case.g.nodes.len()];
-    let mid = case.ops.len() / 2;
+    let mut rel_ids = vec![None; case.g.rels.len()];
+    // "mid" = halfway through the creation part, so relationships land on both sides of it
+    let creation = case.ops.iter().position(|o| matches!(o, Op::Churn { .. } | Op::Fix { .. })).unwrap_or(case.ops.len());
+    let mid = if cfg.compact == CompactMode::Multi { creation * 2 / 3 } else { case.ops.len() / 2 };
+    let late = case.ops.iter().position(|o| matches!(o, Op::Churn { .. }));
     for (step, op) in case.ops.iter().enumerate() {
-        if cfg.compact == CompactMode::Mid && step == mid {
+        if matches!(cfg.compact, CompactMode::Mid | CompactMode::Multi) && step == mid {
+            store.compact_adjacency();
+        }
+        if cfg.compact == CompactMode::Multi && Some(step) == late && step != mid {
             store.compact_adjacency();
         }
         match op {
@@ -149,7 +179,18 @@ pub fn build_config_store(case: &Case, cfg: &Config) -> Result<GraphStore, Strin
                 for (k, v) in &r.props {
                     pm.insert(k.clone(), v.to_pv());
                 }
-                store.create_edge_with_properties(s, d, EdgeType::new(r.ty.clone()), pm).map_err(|e| e.to_string())?;
+                rel_ids[*j] = Some(store.create_edge_with_properties(s, d, EdgeType::new(r.ty.clone()), pm).map_err(|e| e.to_string())?);
+            }
+            Op::Churn { j } => {
+                let r = &case.g.rels[*j];
+                let (s, d) = (node_ids[r.src].ok_or("rel before node")?, node_ids[r.dst].ok_or("rel before node")?);
+                let old = rel_ids[*j].ok_or("churn before rel")?;
+                store.delete_edge(old).map_err(|e| e.to_string())?;
+                let mut pm = PropertyMap::new();
+                for (k, v) in &r.props {
+                    pm.insert(k.clone(), v.to_pv());
+                }
+                rel_ids[*j] = Some(store.create_edge_with_properties(s, d, EdgeType::new(r.ty.clone()), pm).map_err(|e| e.to_string())?);
             }
             Op::Ghost { like } => {
                 let n = &case.g.nodes[*like];
@@ -183,7 +224,18 @@ pub fn build_config_store(case: &Case, cfg: &Config) -> Result<GraphStore, Strin
             }
         }
     }
-    Ok(store)
+    let mut names = IdNames::default();
+    for (i, id) in node_ids.iter().enumerate() {
+        if let Some(id) = id {
+            names.nodes.insert(id.as_u64(), i);
+        }
+    }
+    for (j, id) in rel_ids.iter().enumerate() {
+        if let Some(id) = id {
+            names.rels.insert(id.as_u64(), j);
+        }
+    }
+    Ok((store, names))
 }
 
 #[derive(Clone, Debug, PartialEq)]
@@ -193,12 +245,14 @@ pub enum Res {
     Panic(String),
 }
 
-fn canon_cell(v: &samyama::query::Value) -> String {
+fn canon_cell(v: &samyama::query::Value, nm: &IdNames) -> String {
+    let nn = |id: u64| nm.nodes.get(&id).map(|i| format!("N{i}")).unwrap_or_else(|| format!("N?{id}"));
+    let rn = |id: u64| nm.rels.get(&id).map(|j| format!("R{j}")).unwrap_or_else(|| format!("R?{id}"));
     use samyama::query::Value;
     match v {
-        Value::Node(id, _) | Value::NodeRef(id) => format!("N{}", id.as_u64()),
-        Value::Edge(id, _) => format!("R{}", id.as_u64()),
-        Value::EdgeRef(id, ..) => format!("R{}", id.as_u64()),
+        Value::Node(id, _) | Value::NodeRef(id) => nn(id.as_u64()),
+        Value::Edge(id, _) => rn(id.as_u64()),
+        Value::EdgeRef(id, ..) => rn(id.as_u64()),
         Value::Property(p) => {
             // lists (collect(), labels()) are compared as multisets here too
             fn unordered(v: &V) -> String {
@@ -213,20 +267,20 @@ fn canon_cell(v: &samyama::query::Value) -> String {
             }
             unordered(&V::from_pv(p))
         }
-        Value::Path { nodes, edges } => format!("P{:?}/{:?}", nodes.iter().map(|n| n.as_u64()).collect::<Vec<_>>(), edges.iter().map(|e| e.as_u64()).collect::<Vec<_>>()),
+        Value::Path { nodes, edges } => format!("P{:?}/{:?}", nodes.iter().map(|n| nn(n.as_u64())).collect::<Vec<_>>(), edges.iter().map(|e| rn(e.as_u64())).collect::<Vec<_>>()),
         Value::List(items) => {
             // element order of collect()/labels() is unspecified: compare as a multiset
-            let mut c: Vec<String> = items.iter().map(canon_cell).collect();
+            let mut c: Vec<String> = items.iter().map(|x| canon_cell(x, nm)).collect();
             c.sort();
             format!("[{}]", c.join(","))
         }
-        Value::Map(m) => format!("{{{}}}", m.iter().map(|(k, x)| format!("{k}:{}", canon_cell(x))).collect::<Vec<_>>().join(",")),
+        Value::Map(m) => format!("{{{}}}", m.iter().map(|(k, x)| format!("{k}:{}", canon_cell(x, nm))).collect::<Vec<_>>().join(",")),
         Value::Null => "null".into(),
     }
 }
 
 pub fn run_config(case: &Case, cfg: &Config, text: &str, windowed: bool) -> Res {
-    let store = match build_config_store(case, cfg) {
+    let (store, names) = match build_config_store_named(case, cfg) {
         Ok(s) => s,
         Err(e) => return Res::Panic(format!("building the store failed: {e}")),
     };
@@ -235,7 +289,7 @@ pub fn run_config(case: &Case, cfg: &Config, text: &str, windowed: bool) -> Res 
         let q = parse_query(text).map_err(|e| e.to_string())?;
         let ex = if cfg.native { QueryExecutor::with_planner(&store, QueryPlanner::with_config(PlannerConfig { graph_native: true, max_candidate_plans: 64 })) } else { QueryExecutor::new(&store) };
         let b = ex.execute(&q).map_err(|e| e.to_string())?;
-        let mut rows: Vec<String> = b.records.iter().map(|r| b.columns.iter().map(|c| r.get(c).map(canon_cell).unwrap_or_else(|| "missing".into())).collect::<Vec<_>>().join(" | ")).collect();
+        let mut rows: Vec<String> = b.records.iter().map(|r| b.columns.iter().map(|c| r.get(c).map(|v| canon_cell(v, &names)).unwrap_or_else(|| "missing".into())).collect::<Vec<_>>().join(" | ")).collect();
         if windowed {
             // which rows a window keeps is not determined: compare the size only
             return Ok(vec![format!("<{} rows>", rows.len())]);
@@ -356,7 +410,7 @@ pub fn run(args: &Args) {
     let mut ev = Evidence::new(
         args,
         "exploration",
-        "graph history (reference graph built with decoy nodes/relationships created and deleted for id reuse, decoy property values fixed later) x read query from the C01 grammar, executed under the cross product {no index, index on every (label, property) declared before the data, declared after} x {never compacted, compact_adjacency mid-history, at the end} x {legacy, graph-native planner} x {SAMYAMA_FILTER_PARALLEL_COST 0, 1e9}; twin stores are built from the same operation list so ids coincide; every configuration must give the same normalised bag (or all refuse). Non-trivial = the common answer is non-empty; distinct = distinct (history, query).",
+        "graph history (reference graph built with decoy nodes/relationships created and deleted for id reuse, decoy property values fixed later) x read query from the C01 grammar, executed under the cross product {no index, index on every (label, property) declared before the data, declared after} x {never compacted, compact_adjacency mid-history, at the end, twice (two frozen segments) before a late section that deletes and re-creates reference relationships} x {legacy, graph-native planner} x {SAMYAMA_FILTER_PARALLEL_COST 0, 1e9}; twin stores are built from the same operation list and returned nodes/relationships are compared by the reference entity they stand for; every configuration must give the same normalised bag (or all refuse). Non-trivial = the common answer is non-empty; distinct = distinct (history, query).",
     );
     ev.assume("queries with SKIP/LIMIT are compared by row count only (which rows a window keeps is not determined without a total order)");
     ev.assume("separate-process runs are covered by the fixed-seed determinism of the in-process runs plus the cross-process replay in the thorough tier; hash seeds differ between the twin stores of one run already (RandomState per map)");
